@@ -44,7 +44,7 @@ func init() {
 		pkgPath:   "github.com/yandex/pandora/components/providers/http/decoders",
 		module:    "AmmoDec",
 		namespace: "Pandora.Gen.AmmoDec",
-		imports:   []string{"Pandora.Model.C07", "Pandora.Model.C07Heap", "Pandora.Model.C07Go"},
+		imports:   []string{"Pandora.Model.C07", "Pandora.Model.C07Heap", "Pandora.Model.C07Go", "Pandora.Model.C07Build"},
 		extra:     ammodecExtra,
 	}
 }
@@ -746,5 +746,5 @@ func ammodecExtra(t *tr) string {
 		x.fail(p, nil, "struct entity not found")
 	}
 	w("/-- fields of `entity`: (Go field, json tag, type) -/\ndef entityFields : List (String × String × String) := [%s]\n", strings.Join(tags, ", "))
-	return b.String() + ammodecR4(t)
+	return b.String() + ammodecR4(t) + ammodecR6(t)
 }
